@@ -232,7 +232,10 @@ Section Parse.
           if negb (N.eqb q cSQ || N.eqb q cDQ) then PErr
           else if negb (last_is r q) then PErr
           else let body := removelast r in
-               if memN q (strip_pairs body) then PErr else PStr (expand accU body)
+               if memN q (strip_pairs body) then PErr
+               else let r := expand accU body in
+                    (* chr() of an escape beyond U+10FFFF raises ValueError (possible only with accU) *)
+                    if existsb (N.leb 1114112) r then PErr else PStr r
       | [] => PErr
       end
     else if int_shape s then
